@@ -686,6 +686,88 @@ func Equal(a, b interface{}) bool {
 	return deepEq(reflect.ValueOf(a), reflect.ValueOf(b))
 }
 
+// PermuteOneMap: symbolic-only switch - exactly one map range of the code that
+// follows iterates in an arbitrary order (which one is part of the schedule).
+func PermuteOneMap(on bool) {}
+
+// EqualData: equality of two data graphs of the same type; function values are
+// not compared, shared and cyclic parts are visited once.
+func EqualData(a, b interface{}) bool {
+	if a == nil || b == nil {
+		return a == nil && b == nil
+	}
+	return dataEq(reflect.ValueOf(a), reflect.ValueOf(b), map[[2]uintptr]bool{})
+}
+
+func dataEq(a, b reflect.Value, seen map[[2]uintptr]bool) bool {
+	if a.Type() != b.Type() {
+		return false
+	}
+	switch a.Kind() {
+	case reflect.Func, reflect.Chan, reflect.UnsafePointer:
+		return true
+	case reflect.Struct:
+		for i := 0; i < a.NumField(); i++ {
+			if !dataEq(a.Field(i), b.Field(i), seen) {
+				return false
+			}
+		}
+		return true
+	case reflect.Slice:
+		if a.IsNil() != b.IsNil() && (a.Len() != 0 || b.Len() != 0) {
+			return false
+		}
+		fallthrough
+	case reflect.Array:
+		if a.Len() != b.Len() {
+			return false
+		}
+		for i := 0; i < a.Len(); i++ {
+			if !dataEq(a.Index(i), b.Index(i), seen) {
+				return false
+			}
+		}
+		return true
+	case reflect.Map:
+		if a.Len() != b.Len() {
+			return false
+		}
+		for _, k := range a.MapKeys() {
+			bv := b.MapIndex(k)
+			if !bv.IsValid() || !dataEq(a.MapIndex(k), bv, seen) {
+				return false
+			}
+		}
+		return true
+	case reflect.Ptr:
+		if a.IsNil() || b.IsNil() {
+			return a.IsNil() && b.IsNil()
+		}
+		k := [2]uintptr{a.Pointer(), b.Pointer()}
+		if seen[k] {
+			return true
+		}
+		seen[k] = true
+		return dataEq(a.Elem(), b.Elem(), seen)
+	case reflect.Interface:
+		if a.IsNil() || b.IsNil() {
+			return a.IsNil() && b.IsNil()
+		}
+		return dataEq(a.Elem(), b.Elem(), seen)
+	case reflect.Bool:
+		return a.Bool() == b.Bool()
+	case reflect.String:
+		return a.String() == b.String()
+	case reflect.Float32, reflect.Float64:
+		return a.Float() == b.Float()
+	case reflect.Int, reflect.Int8, reflect.Int16, reflect.Int32, reflect.Int64:
+		return a.Int() == b.Int()
+	case reflect.Uint, reflect.Uint8, reflect.Uint16, reflect.Uint32, reflect.Uint64, reflect.Uintptr:
+		return a.Uint() == b.Uint()
+	}
+	return true
+}
+
 // Same: structural equality of two values whose types may differ in name only
 // (C18: the same API generated from two forms of one spec).
 func Same(a, b interface{}) bool {
